@@ -483,6 +483,34 @@ let dispatch (op : string) (args : string list) : string =
   | "csv" -> do_csv args
   | "name" -> do_name args
   | "mbrows" -> do_mbrows args
+  | "tj.merge" | "tj.limit" ->
+      (* a document: <bounds>;<center>;<values>  with bounds `w,s,e,n`, center `a,b,c`, values `hexkey:B<n>` | `hexkey:S<hex>` |
+         `hexkey:L<hex>.<hex>...` joined by '&'; "-" = absent / empty *)
+      let zs t = List.map z_of_string (String.split_on_char ',' t) in
+      let tval_of t = (match t.[0] with
+        | 'B' -> TByte (n_of_string (String.sub t 1 (String.length t - 1)))
+        | 'S' -> TString (bytes_of_hex (String.sub t 1 (String.length t - 1)))
+        | 'L' -> let r = String.sub t 1 (String.length t - 1) in TList (if r = "" then [] else List.map bytes_of_hex (String.split_on_char '.' r))
+        | _ -> failwith ("tval " ^ t)) in
+      let doc_of (t : string) : tj = (match String.split_on_char ';' t with
+        | [b; c; v] ->
+          { t_bounds = (if b = "-" then None else (match zs b with [w; s; e; n] -> Some (((w, s), e), n) | _ -> failwith b));
+            t_center = (if c = "-" then None else (match zs c with [x; y; z] -> Some ((x, y), z) | _ -> failwith c));
+            t_vals = (if v = "-" then [] else List.map (fun kv -> match String.split_on_char ':' kv with [k; x] -> (bytes_of_hex k, tval_of x) | _ -> failwith kv) (String.split_on_char '&' v)) }
+        | _ -> failwith ("doc " ^ t)) in
+      let show_tval = function TByte n -> "B" ^ string_of_n n | TString x -> "S" ^ hex_of_bytes x | TList l -> "L" ^ String.concat "." (List.map hex_of_bytes l) in
+      let show (d : tj) : string =
+        let b = match d.t_bounds with None -> "-" | Some (((w, s), e), n) -> String.concat "," (List.map string_of_z [w; s; e; n]) in
+        let c = match d.t_center with None -> "-" | Some ((x, y), z) -> String.concat "," (List.map string_of_z [x; y; z]) in
+        let vs = List.sort compare (List.map (fun (k, v) -> hex_of_bytes k ^ ":" ^ show_tval v) d.t_vals) in
+        b ^ ";" ^ c ^ ";" ^ (if vs = [] then "-" else String.concat "&" vs) in
+      let optn t = if t = "-" then None else Some (n_of_string t) in
+      (match op, args with
+       | "tj.merge", [a; b] -> show (merge tj_merge_variant (doc_of a) (doc_of b))
+       | "tj.limit", [a; bb; zmin; zmax] ->
+           let cb = if bb = "-" then None else (match zs bb with [w; s; e; n] -> Some (((w, s), e), n) | _ -> failwith bb) in
+           show (update_from_pyramid cb (optn zmin) (optn zmax) (doc_of a))
+       | _ -> "?tj-args")
   | "vplarg.bbox" | "vplarg.zoom" ->
       (* a parameter: "-" = not given, "()" = given without entries, otherwise its entries joined by ',' *)
       let param t = if t = "-" then None else if t = "()" then Some [] else Some (List.map codes (String.split_on_char ',' t)) in
